@@ -228,6 +228,8 @@ def random_scenarios(c, n, tr):
             if kind < 0.3 and rng.random() < 0.6:
                 ref = 3 - res           # associated rule: limited by the other resource
             rules.append(mkrule(res, num, den, iv, ref, 1))
+            if ref == 0 and rng.random() < 0.15:
+                rules[-1]['leftref'] = 3 - res      # own-resource rule with a left-over RefResource (must be ignored)
         s = [dict(op='new', tr=tr, t=rng.choice([1, 499, 500, 501, 777, 1000, 9999, rng.randint(1, 30000)]), unit=1, nres=nres, rules=rules)]
         t = s[0]['t']
         assoc = any(r['ref'] for r in rules)
